@@ -10,6 +10,7 @@ import (
 	"io"
 	"os"
 	"path/filepath"
+	"strings"
 
 	"filippo.io/age"
 )
@@ -111,6 +112,30 @@ func checkC05(c *Ctx) {
 			}
 		}
 	}
+	// (a0'') passphrases are used byte for byte: leading / trailing blanks, tabs, newlines, a NUL inside
+	for _, pw := range []string{" lead", "trail ", "trail\n", "\ttab\t", " both ", "in ner", "nl\r\n", "  ", "a\x00b"} {
+		if _, perr := age.NewScryptRecipient(pw); perr != nil {
+			c.Oracle("non-empty-passphrase-is-usable", false, "passphrase-refused", map[string]string{"passphrase": pw}, "NewScryptRecipient refused a non-empty passphrase: "+perr.Error())
+			continue
+		}
+		sc := &scenario{parties: []*party{scryptParty(pw, 2, 10)}, plain: c.rng.bytes(20), tape: c.rng.bytes(100)}
+		file, err, _, _ := encryptImpl(sc)
+		c.Compare("age.Encrypt~Age.encrypt_bytes", map[string]interface{}{"passphrase": pw, "recipients": "scrypt"}, implFileSx(file, err), c.encryptModel(sc))
+		// a conformant file for this passphrase (written by the model) opens with it, and not with its trimmed form
+		if m := parseAll(c.encryptModel(sc))[0]; m.isL && m.list[0].atom == ":ok" {
+			mf := m.list[1].bytes()
+			_, out, oc := decryptImpl(bytes.NewReader(mf), false, []age.Identity{sc.parties[0].id})
+			c.Oracle("reference-file-decrypts", bytes.Equal(out, sc.plain) && oc == ":eof", "reference-file-passphrase", map[string]string{"passphrase": pw}, "a file written by the reference encoder for this passphrase did not decrypt with it (outcome "+oc+")")
+			if t := strings.TrimSpace(pw); t != pw && t != "" {
+				ti, _ := age.NewScryptIdentity(t)
+				ti.SetMaxWorkFactor(10)
+				_, out2, _ := decryptImpl(bytes.NewReader(mf), false, []age.Identity{ti})
+				c.Oracle("passphrase-is-used-byte-for-byte", len(out2) == 0, "passphrase-normalised", map[string]string{"passphrase": pw, "tried": t}, "the file for "+fmt.Sprintf("%q", pw)+" opened with the trimmed passphrase")
+			}
+		}
+		c.count("passphrase-bytes")
+		c.note("pw:"+pw, true)
+	}
 	// (a1) the plaintext arriving through io.Copy from a plain io.Reader (what cmd/age does): the writer may
 	// take the ReaderFrom path; sizes around multiples of the chunk size
 	for _, n := range []int{0, 1, chunkSize - 1, chunkSize, chunkSize + 1, 2 * chunkSize} {
@@ -145,6 +170,20 @@ func checkC05(c *Ctx) {
 		file, err, used, sizes := encryptImpl(sc)
 		in := sc.describe()
 		c.Compare("age.Encrypt~Age.encrypt_bytes", in, implFileSx(file, err), c.encryptModel(sc))
+		if err == nil && !sc.armor {
+			// one stanza per listed native recipient, repeated recipients included
+			want := 0
+			for _, p := range sc.parties {
+				if p.kind != "stub" {
+					want++
+				} else {
+					want = -1 << 20 // custom recipients write what they like: not counted
+				}
+			}
+			if hh, _ := splitFile(file); want > 0 {
+				c.Oracle("one-stanza-per-listed-recipient", len(hh.Recipients) == want, "recipient-stanza-count", in, fmt.Sprintf("%d recipients listed, %d stanzas written", want, len(hh.Recipients)))
+			}
+		}
 		_ = used
 		_ = sizes
 		if err == nil && i < 3 {
